@@ -19,6 +19,7 @@ struct C09 : Prop {
 		       "tracked state as predicted; return 1 => no new downlink message and bidib_get_state unchanged. non-trivial = >=1 command addressed a re-logged-in board "
 		       "or used function bits changed by the bus, and >=1 command was refused; distinct = (shape, trace).";
 	}
+	bool conc_heavy = false;      // C10 delegates its command-atomicity sub-workload to this generator + oracle
 	J generate(Rng &r, const std::string &tier, uint64_t) override {
 		bool thorough = tier == "thorough";
 		J plan = J::obj();
@@ -35,10 +36,32 @@ struct C09 : Prop {
 		struct N { std::vector<uint8_t> addr; bool present; bool iface; };
 		std::vector<N> ns; for (auto &b : w.boards) ns.push_back({b.addr, b.present, b.is_iface()});
 		int nsteps = (int) r.range(4, thorough ? 50 : 25);
+		int p_conc = conc_heavy ? 45 : 8;
 		for (int i = 0; i < nsteps; i++) {
 			J ph = J::obj();
 			uint64_t x = r.below(100);
-			if (x < 72) {
+			if ((int) r.below(100) < p_conc && !w.trains.empty() && !ids.tos.empty()) {
+				// concurrent train commands (same train, mostly functions of one group): the downlink must be explainable by ONE serial order
+				// (one track output per phase: the wire order is the serial order only per node - the response budget may defer one node's messages)
+				const cfg::Train &t = w.trains[r.below(w.trains.size())];
+				const std::string to_id = ids.tos[r.below(ids.tos.size())];
+				J tasks = J::arr();
+				int nt = (int) r.range(2, conc_heavy ? 4 : 3);
+				for (int k = 0; k < nt; k++) {
+					J ops = J::arr();
+					for (int q = 0, nq = (int) r.range(1, 3); q < nq; q++) {
+						J op = J::obj(); op.set("op", "hl"); J s = J::arr(); J iv = J::arr();
+						const cfg::Train &tt = r.chance(850) ? t : w.trains[r.below(w.trains.size())];
+						s.push(tt.id);
+						if (!tt.periphs.empty() && r.chance(750)) { op.set("fn", "set_train_peripheral"); s.push(tt.periphs[r.below(tt.periphs.size())].id); s.push(to_id); iv.push((int) r.below(2)); }
+						else if (r.chance(850)) { op.set("fn", "set_train_speed"); s.push(to_id); iv.push(r.chance(300) ? 0 : (int) r.range(-126, 126)); }
+						else { op.set("fn", "emergency_stop_train"); s.push(to_id); }
+						op.set("s", s); op.set("i", iv); ops.push(op);
+					}
+					tasks.push(ops);
+				}
+				ph.set("tasks", tasks); ph.set("conc", true);
+			} else if (x < 72) {
 				J pre = J::arr(); J op = api::hl_op(r, ids);
 				if (op.gets("fn") == "set_train_peripheral") { J iv = J::arr(); iv.push((int) r.below(2)); op.set("i", iv); }
 				pre.push(op); ph.set("pre", pre);
@@ -68,12 +91,14 @@ struct C09 : Prop {
 		}
 		se.set("phases", phs);
 		J ss = J::arr(); ss.push(se); plan.set("sessions", ss);
-		J sc = sched_json(r, tier, 1, true); cfg::starve_after_startup(sc, r);
+		J sc = sched_json(r, tier, conc_heavy ? 4 : 2, true); cfg::starve_after_startup(sc, r);
 		plan.set("sched", sc);
 		return plan;
 	}
 
 	sm::Model model;
+	std::function<void(const ref::Msg &)> on_wire;       // called for every downlink message before the model applies it
+	uint64_t conc_phases = 0, conc_overlaps = 0, conc_msgs = 0;
 	size_t wire_pos = 0, frame_pos = 0;
 	J last_state;
 	bool have_last = false, armed = false;
@@ -83,6 +108,7 @@ struct C09 : Prop {
 	void attach(Engine &e) override {
 		model = sm::Model(); model.init(cfg::from_json(e.plan["world"]));
 		wire_pos = frame_pos = 0; have_last = false; armed = false; accepted = refused = relogin_cmds = manual_bits_used = state_checks = 0; relogged.clear(); manual_trains.clear();
+		on_wire = nullptr; conc_phases = conc_overlaps = conc_msgs = 0;
 	}
 	void before_stop(Engine &, int) override { armed = false; }
 
@@ -93,7 +119,7 @@ struct C09 : Prop {
 			bool has_f = frame_pos < e.bus.done.size() && e.bus.done[frame_pos].processed;
 			if (!has_w && !has_f) break;
 			uint64_t ws = has_w ? e.bus.wire[wire_pos].step : UINT64_MAX, fs = has_f ? e.bus.done[frame_pos].last_read_step : UINT64_MAX;
-			if (ws <= fs) { model.apply_downlink(e.bus.wire[wire_pos].msg); wire_pos++; }
+			if (ws <= fs) { if (on_wire) on_wire(e.bus.wire[wire_pos].msg); model.apply_downlink(e.bus.wire[wire_pos].msg); wire_pos++; }
 			else {
 				for (auto &m : e.bus.done[frame_pos].msgs) {
 					if (armed && m.type == MSG_NODE_NEW && m.data.size() >= 9) for (auto &b : model.w.boards) if (!memcmp(b.uid, &m.data[2], 7)) relogged.insert(b.id);
@@ -222,6 +248,7 @@ struct C09 : Prop {
 
 	void after_op(Engine &e, OpRec &o) override {
 		if (!armed || o.op->gets("op") != "hl") return;
+		if (e.plan["sessions"][(size_t) o.session]["phases"][(size_t) o.phase].getb("conc")) return;     // judged at the end of the phase
 		const std::string &fn = o.op->gets("fn");
 		Exp x = expect(*o.op);          // computed on the model state BEFORE the command's own effects are ingested
 		if (x.ret < 0) return;
@@ -260,7 +287,83 @@ struct C09 : Prop {
 		}
 	}
 
+	// Concurrent commands: all train setters hold bidib_trains_rwlock exclusively from reading the state to sending, so the order of
+	// their messages on the wire is their serial order. Every downlink message of the phase must be the expected message of the
+	// next unmatched command of some task, computed on the model state produced by the messages before it.
+	void judge_concurrent(Engine &e, int s, int p) {
+		std::map<int, std::vector<OpRec *>> by_task;
+		for (auto &o : e.oplog) if (o.session == s && o.phase == p && o.op->gets("op") == "hl") by_task[o.task].push_back(&o);
+		conc_phases++;
+		{ bool ov = false; std::vector<OpRec *> all; for (auto &kv : by_task) for (auto *o : kv.second) all.push_back(o);
+		  for (size_t i = 0; i < all.size(); i++) for (size_t j = i + 1; j < all.size(); j++) if (all[i]->task != all[j]->task && all[i]->inv_step < all[j]->ret_step && all[j]->inv_step < all[i]->ret_step) ov = true;
+		  if (ov) conc_overlaps++; }
+		// refused commands: the reasons are static during the phase (no topology change): the model must refuse them too
+		for (auto &kv : by_task) for (auto *o : kv.second) {
+			Exp x = expect(*o->op);
+			if (x.ret >= 0 && (x.ret == 1) != (o->ret == 1))
+				e.violate(x.ret == 0 ? "COMMAND_REFUSED" : "COMMAND_ACCEPTED", o->op->gets("fn"), "concurrent bidib_" + o->op->gets("fn") + (*o->op)["s"].dump() + (*o->op)["i"].dump() + " returned " + std::to_string(o->ret) + ", expected " + std::to_string(x.ret) + " (" + x.why + ")");
+			if (o->ret == 1) refused++; else accepted++;
+		}
+		// match matrix: row i = which accepted commands would produce wire message i on the model state before it (the state is a
+		// function of the wire prefix alone, not of the matching); then search an assignment that respects each task's program order
+		std::vector<std::pair<int, size_t>> cmds;                 // (task, index in task) of accepted commands
+		for (auto &kv : by_task) for (size_t i = 0; i < kv.second.size(); i++) if (kv.second[i]->ret == 0) cmds.push_back({kv.first, i});
+		std::vector<std::vector<bool>> match;
+		std::vector<ref::Msg> msgs;
+		std::vector<std::string> want_at;
+		on_wire = [&](const ref::Msg &m) {
+			conc_msgs++;
+			std::vector<bool> row; std::string w;
+			for (auto &c : cmds) {
+				OpRec *o = by_task[c.first][c.second];
+				Exp x = expect(*o->op);
+				bool same = false;
+				if (x.ret == 0 && x.msgs.size() == 1) {
+					if (x.estop && m.type == MSG_CS_DRIVE && m.data.size() == 9) { auto a = m.data, b = x.msgs[0].data; a[4] &= 0x7F; b[4] &= 0x7F; same = a == b && m.addr == x.msgs[0].addr; }
+					else same = pc::msg_key(m) == pc::msg_key(x.msgs[0]);
+					w += " task" + std::to_string(c.first) + "#" + std::to_string(c.second) + ":" + o->op->gets("fn") + (*o->op)["s"].dump() + (*o->op)["i"].dump() + "->" + pc::msg_key(x.msgs[0]);
+				}
+				row.push_back(same);
+			}
+			match.push_back(row); msgs.push_back(m); want_at.push_back(w);
+		};
+		ingest(e);
+		on_wire = nullptr;
+		std::vector<int> tasks; for (auto &kv : by_task) tasks.push_back(kv.first);
+		std::map<int, std::vector<size_t>> cmd_of;                 // task -> indices into cmds, program order
+		for (size_t k = 0; k < cmds.size(); k++) cmd_of[cmds[k].first].push_back(k);
+		size_t deepest = 0;
+		std::set<std::vector<size_t>> dead;
+		std::function<bool(size_t, std::vector<size_t> &)> dfs = [&](size_t i, std::vector<size_t> &pos) -> bool {
+			if (i > deepest) deepest = i;
+			if (i == msgs.size()) return true;
+			std::vector<size_t> key = pos; key.push_back(i);
+			if (dead.count(key)) return false;
+			for (size_t t = 0; t < tasks.size(); t++) {
+				auto &lst = cmd_of[tasks[t]];
+				if (pos[t] >= lst.size() || !match[i][lst[pos[t]]]) continue;
+				pos[t]++;
+				if (dfs(i + 1, pos)) return true;
+				pos[t]--;
+			}
+			dead.insert(key);
+			return false;
+		};
+		std::vector<size_t> pos(tasks.size(), 0);
+		if (msgs.size() > cmds.size())
+			e.violate("WRONG_MESSAGES", "concurrent train commands", std::to_string(cmds.size()) + " accepted concurrent commands put " + std::to_string(msgs.size()) + " messages on the wire");
+		if (!dfs(0, pos)) {
+			size_t i = std::min(deepest, msgs.size() - 1);
+			e.violate("NOT_SERIALIZABLE", "concurrent train commands", "no serial order of the concurrent commands explains the downlink: message #" + std::to_string(i) + " " + pc::msg_key(msgs[i]) +
+			          " is not what any still pending command produces on the state left by the messages before it (a command used function bits / direction that another command "
+			          "had already changed: lost update). On that state the commands would send:" + want_at[i]);
+		}
+		if (msgs.size() < cmds.size())
+			e.violate("WRONG_MESSAGES", "concurrent train commands", std::to_string(cmds.size()) + " accepted concurrent commands but only " + std::to_string(msgs.size()) + " messages reached the wire");
+	}
+
 	void at_quiescence(Engine &e, int s, int p) override {
+		if (armed && e.plan["sessions"][(size_t) s]["phases"][(size_t) p].getb("conc")) judge_concurrent(e, s, p);
 		ingest(e);
 		if (!e.plan["sessions"][(size_t) s]["phases"][(size_t) p].getb("check")) return;
 		J got = lib_state();
@@ -281,6 +384,7 @@ struct C09 : Prop {
 		f.set("shape", (long long) (pc::shape_hash(e.plan) >> 1));
 		J p = J::obj(); p.set("commands_accepted", (long long) accepted); p.set("commands_refused", (long long) refused); p.set("commands_to_relogged_board", (long long) relogin_cmds);
 		p.set("function_commands_after_manual_report", (long long) manual_bits_used); p.set("state_comparisons", (long long) state_checks);
+		p.set("concurrent_command_phases", (long long) conc_phases); p.set("concurrent_phases_with_overlapping_calls", (long long) conc_overlaps); p.set("concurrent_messages_matched", (long long) conc_msgs);
 		f.set("probes", p);
 	}
 };
@@ -288,3 +392,4 @@ struct C09 : Prop {
 }  // namespace
 
 Prop *make_c09() { return new C09(); }
+Prop *make_c09_conc() { C09 *p = new C09(); p->conc_heavy = true; return p; }
